@@ -388,9 +388,18 @@ JOB_CLONES = [
     "cl8 I s:start;y;s:towait;c:1;drop;c:1;a:50;c:2",
 ]
 
+# "all queue contents at the time the job task looks at its queues": far more controls pending in one queue than any fixed-size buffer
+# would hold (a burst from a sender that never yields; controls piling up behind an armed grace timer; many wait-for-end tickets)
+JOB_BIG = [
+    "big1 I s:start;y;" + ";".join(f"n:run:{k}" for k in range(150)) + ";s:run:999;y",
+    "big2 I,I s:start;y;s:gstop:15:50;" + ";".join(f"n:run:{k}" for k in range(140)) + ";s:start;a:100",
+    "big3 E40 s:start;y;" + ";".join("n:towait" for _ in range(150)) + ";s:towait;a:100",
+    "big4 I s:start;y;" + ";".join(f"n:run:{k}" for k in range(135)) + ";s:deletenow;y",
+]
+
 def job_scripts(seed, n_random, exhaustive_len):
     r = random.Random(seed)
-    out = list(JOB_FIXED) + JOB_CLONES + JOB_ASYNC
+    out = list(JOB_FIXED) + JOB_CLONES + JOB_ASYNC + JOB_BIG
     # bounded-exhaustive: every sequence of `exhaustive_len` API calls over the public alphabet, burst and settled, x 3 behaviours
     def seqs(k):
         if k == 0: yield []; return
@@ -654,7 +663,7 @@ def job_plan(pid, modules, theorems, rule_extra, partial=""):
                 assumptions=["tokio: unbounded mpsc is FIFO, select! (biased) polls in order, paused-clock timers fire in deadline order — modelled; the eager scheduler of the model is the paused current-thread runtime of the harness",
                              "process-wrap child (wait/kill/signal) is replaced by a scripted child installed through the public spawn hook; real processes are exercised by C18/C08 streams only",
                              "Relaxed atomics in flag.rs are modelled as sequentially consistent",
-                             "failing kill() / signal() / wait() calls on the child are modelled by the overlay Jf (Wx/Job/Faults.lean), which the fault scripts of the stream are compared with; without faults Jf IS Jm (runOpsF_noFaults), C04 and the no-lost-flag invariant of C07 are proved for every fault script (c04_faults, c07_faults); the other whole-run theorems (C06 grace, C08 deadline, C09 refinement, C10 order) are about fault-free runs",
+                             "failing kill() / signal() / wait() calls on the child are modelled by the overlay Jf (Wx/Job/Faults.lean), which the fault scripts of the stream are compared with; without faults Jf IS Jm (runOpsF_noFaults), C04, the no-lost-flag invariant of C07 and the queue order of C10 are proved for every fault script (c04_faults, c07_faults, c10_faults); the other whole-run theorems (C06 grace, C08 deadline, C09 refinement) are about fault-free runs",
                              "a second sender on another thread is modelled by Op.inject (a send landing between a control's dequeue and the next recv); finer interleavings inside one control's handling do not exist in the code (no await between dequeue and the state change except the child's own kill/wait)"],
                 partial=partial)
 
@@ -669,7 +678,7 @@ PLANS["C07"] = job_plan("C07", ["Wx.Job.C07b", "Wx.Job.C07w", "Wx.Job.C10c", "Wx
     partial="bounded liveness is a theorem for grace timers (c07_ticket_by_deadline: a flag held by a timer has an unexpired deadline, virtual clock of the eager scheduler); a wait-for-end ticket on a child that never ends legitimately never resolves; real-time promptness is observed by the stream only")
 PLANS["C09"] = job_plan("C09", ["Wx.Job.C09", "Wx.Job.C09b", "Wx.Job.C09c"], ["Jm.handle_refines", "Jm.waitBranch_refines", "Jm.spawn_refines", "Jm.spawnB_refines", "Jm.continue_idle", "Jm.runInv_turns", "Jm.runInv_simInv", "Jm.c09_whole_run"],
     "The run markers record (current, previous) state, so the observable state is compared step by step with the model, which refines the documented machine (specStep).")
-PLANS["C10"] = job_plan("C10", ["Wx.Job.C10b", "Wx.Job.C10c"], ["Jm.c10_fifo", "Jm.c10_priority", "Jm.c10_priority_fails_today", "Jm.c10_ran"],
+PLANS["C10"] = job_plan("C10", ["Wx.Job.C10b", "Wx.Job.C10c", "Wx.Props.C10"], ["Jf.c10_faults", "Jf.handleF_qv", "Props.C10.order_kept_under_faults", "Jm.c10_fifo", "Jm.c10_priority", "Jm.c10_priority_fails_today", "Jm.c10_ran"],
     "Oracle: normal-priority run markers execute in send order.")
 
 # ------------------------------------------------------------------------------------------------
@@ -1191,7 +1200,10 @@ def fs_real_stream(pid, ctx):
         ne, nh = f["err"].split("/")
         overflow = c.split(" ")[2] == "Q"
         if overflow: s.bump("queue-overflow errors handled", int(nh) - int(ne))
-        if not what and (int(nh) < int(ne) if overflow else ne != nh): what = f"the filter failed on {ne} events but the error handler saw {nh} runtime errors"
+        # (the watcher itself may report further runtime errors — a watch on a directory that was moved away, a queue overflow — so the
+        # handler may see more errors than the filter raised, never fewer)
+        if not what and int(nh) < int(ne): what = f"the filter failed on {ne} events but the error handler saw only {nh} runtime errors"
+        if int(nh) > int(ne) and not overflow: s.bump("runtime errors raised by the watcher itself", int(nh) - int(ne))
         if not what and f.get("main") != "running": what = f"the main task ended ({f.get('main')}) while filesystem events were being processed"
         if what: s.oracle_failures.append((i, c, o, what))
         s.bump("watcher=" + c.split(" ")[1]); s.bump("mode=" + c.split(" ")[2])
